@@ -16,7 +16,7 @@ EXPLANATION = (
     'and the same body; R15.c both APIs return a shell-reported error unmodified; R15.d decoders propagate every failure as an '
     'error value; R15.e the only headers written on the path are the shell\'s (a side-effecting set_body is undone before they '
     'are appended, and headers are snapshotted before the body is taken); R15.f decode_body produces a String only behind the success edge of '
-    'the charset-label lookup; R15.g body_json parses the raw body bytes (JSON is UTF-8 whatever the Content-Type says) and never goes through the charset decoder. Decoder conformance (encoding_rs, serde_json) is trusted.')
+    'the charset-label lookup; R15.g body_json parses the raw body bytes (JSON is UTF-8 whatever the Content-Type says) and never goes through the charset decoder. Decoder conformance (encoding_rs, serde_json) is trusted. R15.a also lists std methods that panic on argument values (String::truncate, split_at, Vec::remove, ...).')
 
 HT = 'http_types_red_badger_temporary_fork'
 SAFE_STATUS_T = HT + '::status_code::StatusCode'
